@@ -29,7 +29,16 @@ pub fn def() -> CheckDef {
 }
 
 pub fn flags() -> Flags {
-    Flags { property: "C17", final_check: true, imgck_each: true, imgck_dump: true, ..Default::default() }
+    Flags {
+        property: "C17",
+        final_check: true,
+        imgck_each: true,
+        imgck_dump: true,
+        // metadata as returned, as stored and as it survives reopening; structural damage of the
+        // image and failing reopens are C03 / C02's business
+        scope: &["model.entry", "model.result@set_", "model.result@touch", "model.result", "model.listing", "dump.differs", "imgck.dump", "imgck.R7", "reopen.permissive-differs", "reopen.strict-differs"],
+        ..Default::default()
+    }
 }
 
 pub fn gen(seed: u64, idx: u64, _tier: Tier) -> Case {
